@@ -487,7 +487,7 @@ func (ex *Exec) specBinary(env *Env, e *EBinary) *Value {
 		case len(x.C) == 1 && len(y.C) == 1 && (x.C[0].Sort == SInt || x.C[0].Sort.IsBV()) && (y.C[0].Sort == SInt || y.C[0].Sort.IsBV()):
 			a, b := ex.unifyInts(x, y)
 			eq = tb.Eq(a, b)
-		case len(x.C) == 1 && len(y.C) == 1 && x.C[0].Sort == y.C[0].Sort:
+		case len(x.C) == 1 && len(y.C) == 1 && x.C[0].Sort == y.C[0].Sort && !x.C[0].Sort.IsArr():
 			eq = tb.Eq(x.C[0], y.C[0])
 		default:
 			eq = ex.valuesEqual(env.st, x, y)
@@ -721,11 +721,7 @@ func (ex *Exec) specCall(env *Env, e *ECall) *Value {
 		return &Value{T: types.Typ[types.String], C: []*Term{ex.backingArrayRaw(env.st, b, 0), b.C[1], b.C[2]}}
 	case "iszero":
 		x := arg(0)
-		var cs []*Term
-		for _, t := range x.C {
-			cs = append(cs, tb.Eq(t, ex.zeroOfSort(t.Sort)))
-		}
-		return ex.boolV(tb.And(cs...))
+		return ex.boolV(ex.valuesEqual(env.st, x, ex.zero(x.T)))
 	case "as":
 		// as(x, "T"): the interface / reference x viewed as a value of pointer type T
 		x := arg(0)
@@ -888,8 +884,36 @@ func (ex *Exec) specCall(env *Env, e *ECall) *Value {
 		if res.Len() == 1 {
 			retT = res.At(0).Type()
 		}
-		// literal arguments must be given the parameter types' shapes
-		return ex.functionalResult(c, args, retT)
+		resV := ex.functionalResult(c, args, retT)
+		// instantiate the function's (proved or assumed) postconditions for these arguments
+		closed := true
+		for _, a := range args {
+			for _, t := range a.C {
+				if t.bound {
+					closed = false
+				}
+			}
+		}
+		if closed && env.depth < 30 {
+			inner := &Env{ex: ex, st: env.st, old: env.st, vars: map[string]*Value{}, pkg: c.Pkg, depth: env.depth + 10}
+			for i, n := range c.ParamNames {
+				if i < len(args) {
+					inner.vars[n] = args[i]
+				}
+			}
+			if tt, ok := retT.(*types.Tuple); ok {
+				for i := 0; i < tt.Len() && i < len(c.ResultNames); i++ {
+					inner.vars[c.ResultNames[i]] = ex.extract(resV, i)
+				}
+			} else if len(c.ResultNames) > 0 {
+				inner.vars[c.ResultNames[0]] = resV
+			}
+			for _, en := range c.Ensures {
+				fact := ex.evalSpecBool(inner, en.Expr)
+				env.st.pc = tb.And(env.st.pc, fact)
+			}
+		}
+		return resV
 	}
 	if e.Fun == "proj" {
 		t := arg(0)
